@@ -1,6 +1,7 @@
 package scen
 
 import (
+	"errors"
 	"fmt"
 	"sort"
 	"time"
@@ -96,10 +97,17 @@ func (s *Seq) orderedBy(q *Query) string {
 
 func (s *Seq) buildSearch(q *Query) *sod.Search {
 	sr := s.db.Search(rec0(), q.First.Path, q.First.Op, q.First.V.Go())
-	for _, c := range q.Rest {
-		if c.Or {
+	for i, c := range q.Rest {
+		// And/Or directly, or through the string-keyed Operation entry point
+		viaOp := (len(q.First.Path)+len(c.C.Path)+i+s.step)%3 == 0
+		switch {
+		case c.Or && viaOp:
+			sr = sr.Operation([]string{"or", "||", "OR"}[(i+s.step)%3], c.C.Path, c.C.Op, c.C.V.Go())
+		case c.Or:
 			sr = sr.Or(c.C.Path, c.C.Op, c.C.V.Go())
-		} else {
+		case viaOp:
+			sr = sr.Operation([]string{"and", "&&", "And"}[(i+s.step)%3], c.C.Path, c.C.Op, c.C.V.Go())
+		default:
 			sr = sr.And(c.C.Path, c.C.Op, c.C.V.Go())
 		}
 	}
@@ -446,6 +454,59 @@ func (s *Seq) checkSearch(q *Query, mode string, limit int, tagOv, ctx string) {
 			s.checkTop(got, exp, ord, mode == "revlimit", ctx)
 			s.stat("limit-checked")
 		}
+	case "expects":
+		// the expected-count helpers: right count passes, wrong count poisons the search
+		n := len(exp)
+		if e := s.buildSearch(q).Expects(n).Err(); e != nil {
+			s.fail(tag, "expects-right-count-failed", "%s: Expects(%d) on %d matches: %v", ctx, n, n, e)
+		}
+		bad := s.buildSearch(q).Expects(n + 1)
+		objs, err := bad.Collect()
+		if !errors.Is(bad.Err(), sod.ErrUnexpectedNumberOfResults) || err == nil || len(objs) != 0 {
+			s.fail("args", "expects-wrong-count-not-refused", "%s: Expects(%d) on %d matches: Err()=%v, Collect returned %d objects, err=%v", ctx, n+1, n, bad.Err(), len(objs), err)
+		}
+		z := s.buildSearch(q).ExpectsZeroOrN(n + 1)
+		if n == 0 && z.Err() != nil {
+			s.fail(tag, "expectszero-on-empty-failed", "%s: ExpectsZeroOrN on an empty result: %v", ctx, z.Err())
+		}
+		if n > 0 && !errors.Is(z.Err(), sod.ErrUnexpectedNumberOfResults) {
+			s.fail("args", "expectszero-wrong-count-not-refused", "%s: ExpectsZeroOrN(%d) on %d matches: %v", ctx, n+1, n, z.Err())
+		}
+		x := s.buildSearch(q).Operation("xor", q.First.Path, q.First.Op, q.First.V.Go())
+		if objs, err := x.Collect(); !errors.Is(x.Err(), sod.ErrUnknownOperator) || err == nil || len(objs) != 0 {
+			s.fail("args", "unknown-logical-operator-not-refused", "%s: Operation(xor): Err()=%v, %d objects, err=%v", ctx, x.Err(), len(objs), err)
+		}
+		s.stat("expects-checked")
+	case "assignunique", "assignone":
+		o := rec0() // the target must point to a non-nil Object (documented contract)
+		var err error
+		if mode == "assignunique" {
+			err = sr.AssignUnique(&o)
+		} else {
+			err = sr.AssignOne(&o)
+		}
+		switch {
+		case len(exp) == 0:
+			if !sod.IsNoObjectFound(err) {
+				s.fail("order", "one-no-object-error", "%s: %s on an empty result: %v", ctx, mode, err)
+			}
+		case len(exp) > 1 && mode == "assignunique":
+			if !errors.Is(err, sod.ErrUnexpectedNumberOfResults) {
+				s.fail("args", "assignunique-many-not-refused", "%s: AssignUnique on %d matches: %v", ctx, len(exp), err)
+			}
+		default:
+			if err != nil {
+				s.fail(tag, "collect-error", "%s: %s failed: %v", ctx, mode, err)
+			}
+			l := s.recOf(o, tag, ctx)
+			if !exp[l] {
+				s.fail(tag, "extra-object", "%s: %s returned lid=%d which is not a match", ctx, mode, l)
+			}
+			if ord != "" {
+				s.checkTop([]int{l}, exp, ord, false, ctx)
+			}
+		}
+		s.stat("assignone-checked")
 	case "one":
 		o, err := sr.One()
 		if len(exp) == 0 {
@@ -581,7 +642,7 @@ func (s *Seq) genPlan(r *simrt.Rand, nq int) []Probe {
 		chosen = append(chosen, paths[r.Intn(len(paths))])
 	}
 	chosen = append(chosen, shapes.RecPaths[r.Intn(len(shapes.RecPaths))])
-	modes := []string{"len", "collect", "assign", "reverse", "limit", "revlimit", "one"}
+	modes := []string{"len", "collect", "assign", "reverse", "limit", "revlimit", "one", "expects", "assignunique", "assignone"}
 	for _, p := range chosen {
 		for _, op := range model.Ops {
 			if op == "~=" && typeOfPath(p) != "string" {
